@@ -23,7 +23,7 @@ func init() {
 		rule: "case = (law, input). Laws: idempotence of upper/lower/trim/capitalize; reverse involution + length preservation; sort = ordered permutation; length = for-loop count = slice(0,n) coverage, first/last = first/last element a loop observes (strings by code point); join|split round trip for separator-free strings; default replaces exactly undefined/null/''/[]/{}; merge concatenates lists, later maps win; keys lists every key once; " +
 			"slice(start[,length]) for sizes 0-7 x start,length in [-9,9] + omitted on ASCII / multi-byte strings, untyped and typed lists; abs, round(precision 0-4, common/ceil/floor), number_format on integers and k/2^n. Non-trivial: input is non-empty and (multi-byte, or has >= 3 elements, or is negative / fractional). Distinct = distinct (law, input).",
 		assumptions: []string{
-			"sort of an int list may be numeric or textual ('ordered' is not further specified); 0 and false under default are accepted either way; ties in round(common)/number_format accept either neighbour",
+			"sort of an int list may be numeric or textual ('ordered' is not further specified); 0 and false under default are accepted either way; ties in number_format accept either neighbour; ties in round with the 'common' method go away from zero (Twig's definition of that method), ceil/floor are exact",
 			"join|split is checked for single-character separators; multi-character separators are a recorded known finding (the engine's own test suite fixes split-on-any-character semantics)",
 			"valid UTF-8 inputs only (values travel through json_encode)",
 		},
@@ -656,6 +656,11 @@ func (p *c19) numbers(rec *core.Recorder, r *core.Rand) {
 	if r.P(1, 4) {
 		num = int64(r.Range(-50, 50)) * den
 	}
+	if r.P(1, 5) {
+		// an exact tie at precision 0: k + 1/2
+		den = 2
+		num = int64(2*r.Range(-300, 300) + 1)
+	}
 	v := new(big.Rat).SetFrac64(num, den)
 	f, _ := v.Float64()
 	var ctxVal interface{} = f
@@ -696,6 +701,15 @@ func (p *c19) numbers(rec *core.Recorder, r *core.Rand) {
 		wantRound = []*big.Rat{toRat(fl)}
 	default:
 		wantRound = nearest
+		if len(nearest) == 2 {
+			// a tie: the "common" method is defined (Twig documentation) as rounding half away from zero
+			if scaled.Sign() < 0 {
+				wantRound = []*big.Rat{toRat(fl)}
+			} else {
+				wantRound = []*big.Rat{toRat(ce)}
+			}
+			rec.Count("round-ties-checked", 1)
+		}
 	}
 	input := fmt.Sprintf("%s prec=%d %s", v.RatString(), prec, method)
 	rec.Eval("numbers", input, num < 0 || den > 1)
